@@ -133,4 +133,37 @@ theorem assembleTree_leaves (ls : List TapTree) (t : TapTree) (h : assembleTree 
   · have := mergeQueue_leaves _ _ t h
     rw [pairUp_leaves] at this; exact this
 
+theorem pairUp_length : ∀ ts : List TapTree, (pairUp ts).length ≤ ts.length ∧ (ts ≠ [] → pairUp ts ≠ [])
+  | [] => by simp [pairUp]
+  | [_] => by simp [pairUp]
+  | [a, b] => by simp [pairUp]
+  | [a, b, c] => by simp [pairUp]
+  | a :: b :: c :: d :: rest => by
+    have ih := pairUp_length (c :: d :: rest)
+    unfold pairUp
+    simp only [List.length_cons] at ih ⊢
+    constructor
+    · omega
+    · intro _ h; cases h
+    all_goals (intro h; cases h)
+
+theorem mergeQueue_total : ∀ (f : Nat) (ts : List TapTree), ts ≠ [] → ts.length ≤ f + 1 →
+    ∃ t, mergeQueue f ts = some t
+  | _, [], h, _ => absurd rfl h
+  | f, [x], _, _ => by cases f <;> exact ⟨x, by simp [mergeQueue]⟩
+  | 0, _ :: _ :: _, _, hl => by simp at hl
+  | f+1, a :: b :: rest, _, hl => by
+    simp only [mergeQueue]
+    apply mergeQueue_total f
+    · simp
+    · simp only [List.length_append, List.length_cons, List.length_nil] at hl ⊢; omega
+
+/-- `AssembleTaprootScriptTree` builds a tree for every non-empty list of leaves -/
+theorem assembleTree_total (ls : List TapTree) (h : ls ≠ []) : ∃ t, assembleTree ls = some t := by
+  unfold assembleTree
+  split
+  · exact ⟨_, rfl⟩
+  · have := pairUp_length ls
+    exact mergeQueue_total _ _ (this.2 h) (by omega)
+
 end BV.C16.Lemmas
